@@ -22,6 +22,7 @@ import (
 //	c01.pipe <conns> <order> <frag> <req>…   <conns> client connections to real sessions of a socket-less processor over 3 backend nodes;
 //	     every connection pipelines the same requests (its keys carry the connection number), written in <frag>-byte pieces (0 = at once);
 //	     the backends answer in the order <order>: F oldest first across nodes, L newest node first, R<seed> random node (always FIFO within a node)
+//	   a<k> GET of a key whose slot is being moved: the node it reaches first answers ASK, the next node serves it after ASKING
 //	   g<k> GET key k      e<k> GET answered with an error     M<k>.<k>… MGET     D<k>.<k>… DEL     s<k> SET
 //	   p PING    u unsupported command    n<hex> a command whose name is the given bytes
 //	   -> per connection the replies read (canonical value text) separated by ','; connections separated by ' | '
@@ -176,10 +177,14 @@ func (c01) pipe(f []string) string {
 			var args [][]byte
 			body := t[1:]
 			switch t[0] {
-			case 'g', 'e':
+			case 'g', 'e', 'a':
 				args = [][]byte{[]byte("get"), c01Key(conn, body)}
 				if t[0] == 'e' {
 					args[1] = append([]byte("ERR-"), args[1]...)
+				}
+				if t[0] == 'a' {
+					// the node it is sent to answers ASK: the slot is being moved to the next node, which serves it after ASKING
+					args[1] = append([]byte("ASK-"), args[1]...)
 				}
 			case 's':
 				args = [][]byte{[]byte("set"), c01Key(conn, body), []byte("val")}
@@ -234,7 +239,8 @@ func (c01) pipe(f []string) string {
 	// backend pump
 	go func() {
 		queues := map[string][]*redis.VerifSent{}
-		var arrival []string // node of each queued request, in arrival order
+		asked := map[string]bool{} // node -> ASKING seen, counts for the next command on that node's connection
+		var arrival []string       // node of each queued request, in arrival order
 		for {
 			select {
 			case <-stop:
@@ -286,6 +292,14 @@ func (c01) pipe(f []string) string {
 				key = b.Array[1].Text
 			}
 			switch {
+			case cmd == "asking":
+				asked[node] = true
+				s.Reply(&redis.RespValue{Type: redis.SimpleString, Text: []byte("OK")})
+			case bytes.HasPrefix(key, []byte("ASK-")) && !asked[node]:
+				s.Reply(&redis.RespValue{Type: redis.Error, Text: []byte("ASK 1 " + hx.NodeAddr((nodeIndex(node)+1)%c01Nodes))})
+			case bytes.HasPrefix(key, []byte("ASK-")):
+				asked[node] = false
+				s.Reply(&redis.RespValue{Type: redis.BulkString, Text: append([]byte("v:"), key...)})
 			case bytes.HasPrefix(key, []byte("ERR-")):
 				s.Reply(&redis.RespValue{Type: redis.Error, Text: append([]byte("ERR no "), key...)})
 			case cmd == "get":
@@ -509,7 +523,7 @@ func (c c01) Gen(r *hx.Run) {
 	hexs := func(s string) string { return hx.Hex([]byte(s)) }
 	basic := []string{
 		"1 F 0 g1", "1 F 0 g1 g2 g3", "1 L 0 g1 g2 g3 g4 g5 g6", "1 L 1 g1 g2 g3 g4 g5 g6", "1 L 0 M1.2.3.4.5.6 g1 D1.2.3 p g2",
-		"1 F 0 u g1 p", "1 L 0 e1 g2 e3 g4", "2 L 3 g1 g2 g3 M1.2.3 p", "3 R7 2 g1 s2 M1.2.3.4 D1.2 p u e5",
+		"1 F 0 u g1 p", "1 L 0 e1 g2 e3 g4", "1 F 0 a1", "1 L 0 g1 a2 g3 a4 g5", "2 R5 0 a1 g2 a3 g1 a2", "3 L 2 a1 a2 a3 g1 g2 g3", "2 L 3 g1 g2 g3 M1.2.3 p", "3 R7 2 g1 s2 M1.2.3.4 D1.2 p u e5",
 		"1 F 0 n" + hexs("foo\r\nbar") + " g1", "1 F 0 g1 n" + hexs("a\r\n+OK") + " g2", "1 F 0 n" + hexs("x\ny") + " p", "1 L 0 g1 n" + hexs("\r\n\r\n") + " g2 p",
 		"1 F 0 n" + hexs("get\r") + " p", "1 F 0 n" + hexs("'") + " p",
 	}
@@ -525,6 +539,8 @@ func (c c01) Gen(r *hx.Run) {
 		for i := 0; i < n; i++ {
 			k := func() string { return strconv.Itoa(rng.Intn(keys)) }
 			switch x := rng.Intn(20); {
+			case x < 2:
+				toks = append(toks, "a"+k())
 			case x < 9:
 				toks = append(toks, "g"+k())
 			case x < 11:
